@@ -1,6 +1,6 @@
 //@host src/lib.rs
 //@config dev,std_relcheck,std_nocheck,libm_check,libm_nocheck,micromath_check,micromath_nocheck
-//@quickconfigs dev,std_nocheck,libm_nocheck
+//@quickconfigs dev,std_nocheck,libm_nocheck,libm_check
 // C19: the cfg-dependent items of the crate (Unit and its methods, From<PositionDerivative> for Unit, Quantity::abs,
 // PartialEq for Quantity, the State setters and Time/DimensionlessInteger::try_from that consult a unit, powf) are
 // re-proved against the SAME value contracts in every feature configuration: the contracts are functions of the raw
@@ -76,7 +76,7 @@ fn c19_integer_to_quantity_values() {
     assert!(fsame(Quantity::from(n).value, n.0 as f32));
     reach!();
 }
-//@ob fn="<Time as TryFrom<Quantity>>::try_from" at=src/dimensions.rs:140 clause="seconds -> Time is (v*1e9) as i64 in this configuration; with checking compiled out every quantity is accepted"
+//@ob prop=C19,C18 fn="<Time as TryFrom<Quantity>>::try_from" at=src/dimensions.rs:140 clause="seconds -> Time is (v*1e9) as i64 in this configuration; with checking compiled out every quantity is accepted"
 #[kani::proof]
 fn c19_quantity_to_time_value() {
     let v: f32 = kani::any();
@@ -158,5 +158,24 @@ fn c19_command_quantity_values() {
     assert!(feq(q.value, f32::from(c)));
     let pd: PositionDerivative = kani::any();
     let _u: Unit = pd.into();
+    reach!();
+}
+
+//@ob fn="enhanced_float::powf" at=src/enhanced_float.rs:5 clause="(no_std + libm builds; under std the platform powf is an intrinsic Kani does not model) the power function selected by the configuration agrees with IEEE pow on its special cases and on exactly representable results: powf(x, 0) = 1 for x in {0, -0, 1, -2, 2.5}; powf(1, y) = 1; powf(-2, 3) = -8; powf(2, 10) = 1024; powf(0, 2) = 0; powf(4, 0.5) = 2 (beyond the last-ulps difference the property tolerates)" bounded="11 concrete points (special cases and exactly representable results)" configs=libm_nocheck,libm_check
+#[kani::proof]
+#[kani::unwind(40)]
+fn c19_powf_special_cases() {
+    use crate::enhanced_float::powf;
+    assert!(powf(0.0, 0.0) == 1.0);
+    assert!(powf(-0.0, 0.0) == 1.0);
+    assert!(powf(1.0, 0.0) == 1.0);
+    assert!(powf(-2.0, 0.0) == 1.0);
+    assert!(powf(2.5, 0.0) == 1.0);
+    assert!(powf(1.0, 7.25) == 1.0);
+    assert!(powf(-2.0, 3.0) == -8.0);
+    assert!(powf(2.0, 10.0) == 1024.0);
+    assert!(powf(0.0, 2.0) == 0.0);
+    assert!(powf(4.0, 0.5) == 2.0);
+    assert!(powf(0.5, 1.0) == 0.5);
     reach!();
 }
